@@ -6,6 +6,7 @@ import (
 	"go/build/constraint"
 	"io/fs"
 	"os"
+	"strconv"
 	"strings"
 
 	"golang.org/x/exp/maps"
@@ -55,8 +56,13 @@ func loadImports(sys fs.FS, topPkg string, top *token) (pkgList, error) {
 			}
 			for i := 1; i < len(t.Tokens); i += 2 {
 				pk := t.Tokens[i]
-				todo = append(todo, pk.Unquote())
-				deps[pkg][pk.Unquote()] = true
+				// a named import's path is not checked by the parser: report, don't panic
+				name, err := strconv.Unquote(pk.Text)
+				if err != nil {
+					return nil, fmt.Errorf("error parsing import path %v: %w", pk.Text, err)
+				}
+				todo = append(todo, name)
+				deps[pkg][name] = true
 			}
 		}
 	}
